@@ -1,6 +1,7 @@
 package keygen
 
 import (
+	"errors"
 	"fmt"
 
 	"github.com/taurusgroup/multi-party-sig/internal/round"
@@ -26,6 +27,9 @@ var (
 
 func StartKeygenCommon(taproot bool, group curve.Curve, participants []party.ID, threshold int, selfID party.ID, privateShare curve.Scalar, publicKey curve.Point, verificationShares map[party.ID]curve.Point) protocol.StartFunc {
 	return func(sessionID []byte) (round.Session, error) {
+		if group == nil {
+			return nil, errors.New("keygen.StartKeygen: group is nil")
+		}
 		info := round.Info{
 			FinalRoundNumber: protocolRounds,
 			SelfID:           selfID,
@@ -47,6 +51,15 @@ func StartKeygenCommon(taproot bool, group curve.Curve, participants []party.ID,
 		verificationSharesCopy := make(map[party.ID]curve.Point, len(participants))
 		for k, v := range verificationShares {
 			verificationSharesCopy[k] = v
+		}
+
+		if privateShare != nil && publicKey != nil {
+			// refreshing: only parties that already hold a share can take part
+			for _, id := range participants {
+				if share, ok := verificationShares[id]; !ok || share == nil {
+					return nil, fmt.Errorf("keygen.StartKeygen: participant %s is not a shareholder", id)
+				}
+			}
 		}
 
 		refresh := true
